@@ -168,6 +168,28 @@ var targets = []wrap{
 	{"L1:L0:for", func(s *St) *St { return lab(1, lab(0, loopW("for").f(s))) }},
 	{"L0:L1:block", func(s *St) *St { return lab(0, lab(1, &St{K: "block", L: -1, Kids: []*St{s}})) }},
 	{"no-label", func(s *St) *St { return s }},
+	// label SETS (12.12): two and three labels directly in front of every kind of loop — every one of them is a continue target
+	{"L0:L1:dowhile", func(s *St) *St { return lab(0, lab(1, loopW("dowhile").f(s))) }},
+	{"L0:L1:for", func(s *St) *St { return lab(0, lab(1, loopW("for").f(s))) }},
+	{"L0:L1:forin", func(s *St) *St { return lab(0, lab(1, loopW("forin").f(s))) }},
+	{"L1:L0:while", func(s *St) *St { return lab(1, lab(0, loopW("while").f(s))) }},
+	{"L0:L1:L2:while", func(s *St) *St { return lab(0, lab(1, lab(2, loopW("while").f(s)))) }},
+	{"L2:L0:L1:for", func(s *St) *St { return lab(2, lab(0, lab(1, loopW("for").f(s)))) }},
+	{"L1:L2:L0:dowhile", func(s *St) *St { return lab(1, lab(2, lab(0, loopW("dowhile").f(s)))) }},
+	{"L0:L1:L2:forin", func(s *St) *St { return lab(0, lab(1, lab(2, loopW("forin").f(s)))) }},
+	// … and label sets that do NOT belong to a loop although a loop is nested inside
+	{"L0:L1:{while}", func(s *St) *St { return lab(0, lab(1, &St{K: "block", L: -1, Kids: []*St{loopW("while").f(s)}})) }},
+	{"L0:if(L1:for)", func(s *St) *St { return lab(0, &St{K: "if1", L: -1, Kids: []*St{lab(1, loopW("for").f(s))}}) }},
+	{"L0:switch{L1:L2:while}", func(s *St) *St {
+		return lab(0, &St{K: "switch", L: -1, Kids: []*St{lab(1, lab(2, loopW("while").f(s)))}})
+	}},
+	{"L0:with(while)", func(s *St) *St { return lab(0, &St{K: "with", L: -1, Kids: []*St{loopW("while").f(s)}}) }},
+	{"L0:try{L1:dowhile}", func(s *St) *St {
+		return lab(0, &St{K: "try", L: -1, Kids: []*St{lab(1, loopW("dowhile").f(s))}, HasC: true})
+	}},
+	{"L0:L1:while{L2:{..}}", func(s *St) *St {
+		return lab(0, lab(1, loopW("while").f(lab(2, &St{K: "block", L: -1, Kids: []*St{s}}))))
+	}},
 	{"dup L0:L0:", func(s *St) *St { return lab(0, lab(0, loopW("while").f(s))) }},
 	{"dup nested", func(s *St) *St { return lab(0, loopW("while").f(lab(0, s))) }},
 	{"L0 in outer function", func(s *St) *St { return lab(0, loopW("while").f(&St{K: "fn", L: -1, Kids: []*St{s}})) }},
@@ -185,7 +207,7 @@ var outers = []wrap{
 }
 
 func jumps() []*St {
-	return []*St{{K: "brk", L: -1}, {K: "brk", L: 0}, {K: "cont", L: -1}, {K: "cont", L: 0}, {K: "ret", L: -1}, {K: "brk", L: 1}, {K: "cont", L: 1}}
+	return []*St{{K: "brk", L: -1}, {K: "brk", L: 0}, {K: "cont", L: -1}, {K: "cont", L: 0}, {K: "ret", L: -1}, {K: "brk", L: 1}, {K: "cont", L: 1}, {K: "brk", L: 2}, {K: "cont", L: 2}}
 }
 
 // genEarly2 enumerates jump × label attachment × nest between them (depth ≤ 2 quick, ≤ 3 thorough) × outer context.
